@@ -62,13 +62,8 @@ inline void svprintscripts(std::vector<std::string>& l, int& lmax, std::vector<C
 
         while (script->GetOp(it, opcode, vchPushValue)) {
             begun = true;
-            char* pbuf = buf;
-            if (vchPushValue.size() > 0) {
-                snprintf(pbuf, 1024, "%s", HexStr(std::vector<uint8_t>(vchPushValue.begin(), vchPushValue.end())).c_str());
-            } else {
-                snprintf(pbuf, 1024, "%s", GetOpName(opcode).c_str());
-            }
-            auto s = std::string(buf);
+            // (no fixed-size buffer: a 520 byte push is 1040 hex characters)
+            auto s = vchPushValue.size() > 0 ? HexStr(vchPushValue) : GetOpName(opcode);
             if (s.length() > lmax) lmax = s.length();
             l.push_back(s);
         }
